@@ -6,6 +6,7 @@ from hypothesis import strategies as st
 from . import gen
 
 WIDTHS = [1, 2, 7, 59, 60, 61, 119, 120, 121, 179, 180, 181, 240, 300]
+LONG_WIDTHS = [511, 512, 513, 530, 700, 1023, 1024, 1025, 1100, 1600, 2100]
 
 
 def synth_rows(seed, alpha, n, width, density, lower):
@@ -36,8 +37,12 @@ def synth_rows(seed, alpha, n, width, density, lower):
 @st.composite
 def synthetic(draw, max_n=30, widths=None, charset=gen.NAME_CHARS, long_names=True):
     kind, alpha = draw(gen.alphabets())
-    n = draw(st.integers(2, max_n))
-    width = draw(st.one_of(st.sampled_from(widths or WIDTHS), st.integers(1, 200)))
+    # mostly small; a steady trickle of tall alignments (row-index dependent behaviour, line-buffer growth at 1024 lines)
+    n = draw(st.one_of(st.integers(2, max_n), st.integers(2, max_n), st.integers(2, max_n), st.integers(40, 160), st.integers(330, 420)))
+    width = draw(st.one_of(st.sampled_from(widths or WIDTHS), st.integers(1, 200), st.sampled_from(LONG_WIDTHS)))
+    if width > 400:
+        # rows longer than the readers' 512-residue buffer increments (and its multiples); keep these cases narrow in rows
+        n = min(n, draw(st.integers(2, 8)))
     density = draw(st.sampled_from([0.15, 0.5, 0.8, 0.97]))
     lower = draw(st.sampled_from(["upper", "upper", "lower", "mixed"]))
     seed = draw(st.integers(0, 2 ** 32 - 1))
